@@ -30,8 +30,11 @@ RULE = ("direct: for every struct of the API tables and every field, the field a
         "multi-byte, JSON-escaped, invalid UTF-8 of every kind); raw: JSON documents aimed at each type (nulls, "
         "wrong kinds, unknown keys, boolean schemas, numbers as strings, duplicate map keys); eval: generated "
         "programs (literals incl. special floats, lists/objects incl. empty, interpolation, references, all "
-        "builtins, secrets, an import, fn::open in check mode for unknowns) through eval.EvalEnvironment/"
-        "CheckEnvironment.  non-trivial = a non-nil original / any raw document; distinct by case content")
+        "builtins, secrets, an import, fn::open in check mode for unknowns) and, exhaustively, every YAML number "
+        "spelling of NUMBER_SPELLINGS (leading/trailing dot, signs, underscores, exponent forms, hex/octal/binary, "
+        "leading zeros, sexagesimal, huge/tiny exponents, 64-bit boundaries) as a top-level value, inside arrays and "
+        "objects, as provider input echoed back, under toJSON/toString/interpolation and merged over an import, "
+        "through eval.EvalEnvironment/CheckEnvironment.  non-trivial = a non-nil original / any raw document; distinct by case content")
 ASSUMPTIONS = [
     "Go values are observed through a reflection dump written for this check (exported fields, nil vs empty, dynamic "
     "types of interfaces, exact bytes), not through encoding/json",
@@ -548,7 +551,8 @@ def prog_expr(r, depth, earlier, special):
         return r.chance(1, 2)
     if k in (2, 3):
         return Raw(r.choice(["0", "-0", "1", "-7", "12345678901234567890", "18446744073709551615", "1.5", "1.50", "0.1",
-                             "1e3", "1e-7", "1.0e+21", "123456789012345678901234567890", "0x10", "0o17", "-0.0", "1e400"]))
+                             "1e3", "1e-7", "1.0e+21", "123456789012345678901234567890", "0x10", "0o17", "-0.0", "1e400"]
+                            + NUMBER_SPELLINGS))
     if k == 4 and special:
         return Raw(r.choice(SPECIAL))
     if k in (4, 5):
@@ -610,6 +614,34 @@ def program_text(c):
     if c.get("base") is not None:
         return "imports: [base]\n" + main, {"base": "values: " + yaml_text(c["base"]) + "\n"}
     return main, {}
+
+
+# YAML number spellings (yaml.v3 resolves most of them to int/float; the rest stay strings): every one is put at
+# several positions of a program; whatever the loader makes of them, the evaluation result must be serialisable
+# and round-trip.
+NUMBER_SPELLINGS = [
+    "0", "-0", "+0", "7", "-7", "+7", "007", "010", "-010", "0.0", "-0.0", "+0.0", "0.5", ".5", "-.5", "+.5", "5.", "-5.", "+5.",
+    "5.e3", "5.E3", ".5e3", "-.5e-3", "5.e+3", "1.50", "1.0", "3.14", "010.5", "00.5", "-010.5", "1e3", "1E3", "1e+3", "1E+3", "1e-3",
+    "1E-3", "+1e3", "-1e3", "1.5e3", "1.5E+03", "1e03", "1e+003", "1e", "1e+", "e3", ".e3", "1.e", "1_000", "1_000.25", "+1_000.25",
+    "-1_000.5e1_0", "1__0", "_1", "1_", "1_.5", "._5", "0x1F", "0X1F", "-0x1f", "+0x1F", "0x", "0x1_F", "0o17", "0O17", "-0o17", "0o8",
+    "0b101", "-0b11", "017", "1e308", "1.7976931348623157e308", "1.8e308", "1e309", "-1e309", "1e400", "1e-308", "5e-324", "1e-400",
+    "-1e-400", "0e0", "0e999", "12345678901234567890", "18446744073709551615", "18446744073709551616", "-9223372036854775808",
+    "-9223372036854775809", "123456789012345678901234567890", "0.1234567890123456789", "1.0000000000000000000001",
+    "9007199254740993", "9007199254740993.0", "1:30", "1:30:00", "190:20:30.15", "1,000", "١٢", "1.5.2", "--1", "+-1", "+", "-", ".",
+    "..5", "~", "0.", "-0.", "0.e0", "1.e-2", "+.5e+2", "6.02e23", "6.02E23", "6.02e+23", "-6.02e-23"]
+
+
+def spelling_programs(lit):
+    raw = Raw(lit)
+    yield {"kind": "eval", "fam": "spelling", "check": False, "values": {"n": raw}}
+    yield {"kind": "eval", "fam": "spelling", "check": False,
+           "values": {"l": [raw, [raw]], "o": {"k": raw, "deep": {"k": [raw]}}}}
+    yield {"kind": "eval", "fam": "spelling", "check": False,
+           "values": {"p": {"fn::open::echo": {"n": raw, "l": [raw]}}, "j": {"fn::toJSON": {"n": raw}},
+                      "s": {"fn::toString": raw}, "r": "${p.n}"}}
+    yield {"kind": "eval", "fam": "spelling", "check": True,
+           "values": {"n": raw, "p": {"fn::open::echo": {"n": raw}}, "i": "x ${n} y"},
+           "base": {"n": raw, "m": {"k": raw}}}
 
 
 REGRESSION = [
@@ -721,7 +753,10 @@ def gen(rng, tier):
         ty = raw_roots[i % len(raw_roots)] if i % 3 else raw_roots[i % 4]
         cases.append({"kind": "raw", "ty": ty, "json": jtree_text(raw_for(g, ["named", ty], 3))})
 
-    # --- programs ---------------------------------------------------------------------------------------------------
+    # --- programs: every YAML number spelling at every position (exhaustive family, both tiers) -------------------
+    for lit in NUMBER_SPELLINGS:
+        cases.extend(spelling_programs(lit))
+    # --- programs: random ---------------------------------------------------------------------------------------------
     r = rng.fork("eval")
     for i in range(10000 if thorough else 300):
         cases.append(gen_program(r, special=(i % 4 == 0)))
@@ -858,7 +893,8 @@ def distribution(cases, r):
         elif c["kind"] == "raw":
             k = "raw:%s:%s" % (c["ty"], "error" if o.get("rt") is None else "ok")
         else:
-            k = "eval:%s" % (o.get("skip") and "skipped-" + o["skip"] or ("marshal-error" if o.get("j1") is None else "ok"))
+            k = "eval%s:%s" % ("-" + c["fam"] if c.get("fam") else "",
+                               o.get("skip") and "skipped-" + o["skip"] or ("marshal-error" if o.get("j1") is None else "ok"))
         if "crash" in o or "panic" in o:
             k = c["kind"] + ":crash"
         d[k] = d.get(k, 0) + 1
